@@ -288,7 +288,9 @@ sim::RunResult run(const sim::Json& sc) {
   if (r.verdict == "OK" && sol_write_fault && it != rec.files_after.end() && rec.exit_status() == 0 && !rec.step_budget_exceeded) {
     sim::Json twin = sc;
     sim::Json keep = sim::Json::array();
-    for (auto& fj : sc["faults"].arr()) if (fj["role"].as_str() != "sol") keep.push(fj);
+    // only the write / close faults are taken away: a failing fopen (of this or of an intermediate .sol) changes what the
+    // run has to report, and must do so in the twin as well
+    for (auto& fj : sc["faults"].arr()) if (!(fj["role"].as_str() == "sol" && (fj["op"].as_str() == "fwrite" || fj["op"].as_str() == "fclose"))) keep.push(fj);
     twin.set("faults", keep);
     RunRecord ref = run_driver(twin);
     auto jt = ref.files_after.find("stub.sol");
@@ -296,7 +298,7 @@ sim::RunResult run(const sim::Json& sc) {
     // an error report written instead (other solve code, 'cannot write ...') is a diagnosed failure, not a hole
     oracle::SolFile sa = oracle::parse_sol(it->second), sb = jt != ref.files_after.end() ? oracle::parse_sol(jt->second) : oracle::SolFile();
     const std::string am = sa.ok ? sa.message_text() : std::string();
-    const bool diagnosed = am.find("cannot write file") != std::string::npos || am.find("cannot close file") != std::string::npos;
+    const bool diagnosed = am.find("cannot write file") != std::string::npos || am.find("cannot close file") != std::string::npos || am.find("cannot open file") != std::string::npos;
     if (jt != ref.files_after.end() && ref.exit_status() == 0 && sa.ok && sb.ok && sa.code == sb.code && !diagnosed && jt->second != it->second) {
       size_t d = 0; while (d < jt->second.size() && d < it->second.size() && jt->second[d] == it->second[d]) ++d;
       r.verdict = "TRUNCATED_SOL"; r.sig = "C09:TRUNCATED_SOL:hole:" + fk;
